@@ -295,6 +295,41 @@ def check_setters(model, rep):
     rep.require('C10.range', 8)
 
 
+def check_exact_after_conversion(model, rep):
+    """`a.to(u) != b.to(u)`: two quantities in the same unit are compared EXACTLY (the tolerance that absorbs conversion round-off is
+    only applied between different units), and the conversion just rounded them - gears whose angle or module is the same magnitude
+    written in different units (14.5 deg and its value in rad) then count as different and a valid pair is refused.  The
+    compatibility tests must compare the elements' quantities themselves."""
+    n = 0
+    for fname in SPEC:
+        mod, fn = model.functions[fname]
+        binds = {}
+        for a in ast.walk(fn):
+            if isinstance(a, ast.Assign) and len(a.targets) == 1 and isinstance(a.targets[0], ast.Name):
+                binds.setdefault(a.targets[0].id, []).append(a.value)
+
+        def conv_unit(e):
+            if isinstance(e, ast.Name) and len(binds.get(e.id, ())) == 1:
+                e = binds[e.id][0]
+            if isinstance(e, ast.Call) and isinstance(e.func, ast.Attribute) and e.func.attr == 'to' and (e.args or e.keywords):
+                u = e.args[0] if e.args else next((k.value for k in e.keywords if k.arg == 'target_unit'), None)
+                if isinstance(u, ast.Constant) and isinstance(u.value, str):
+                    return u.value
+            return None
+        bad = None
+        for c in ast.walk(fn):
+            if isinstance(c, ast.Compare) and len(c.ops) == 1 and isinstance(c.ops[0], (ast.Eq, ast.NotEq)):
+                n += 1
+                ul, ur = conv_unit(c.left), conv_unit(c.comparators[0])
+                if ul is not None and ul == ur:
+                    bad = bad or c
+        rep.decide(bad is None, 'C10.rejects', f'{fname}:exact-compare-after-conversion',
+                   f'`{ast.unparse(bad)[:70] if bad is not None else ""}` compares two quantities after converting both to the same unit: same-unit '
+                   f'comparison is exact, so equal magnitudes written in different units differ by the conversion round-off and a compatible pair is refused',
+                   loc=f'{mod}:{bad.lineno if bad is not None else fn.lineno}')
+    rep.inspect(n)
+
+
 def check(model, rep):
     # hidden state Python keeps outside the objects (not modelled by the evaluator): reported before anything else is evaluated
     from checks.solver_common import package_lints as _package_lints
@@ -312,6 +347,7 @@ def check(model, rep):
     for f in SPEC:
         check_function(model, rep, f)
     sxm.POSITIVE_ATOMS.clear()
+    check_exact_after_conversion(model, rep)
     check_setters(model, rep)
     from sa.forwarding import check_forwarding
     from sa.forwarding import check_trig
